@@ -295,6 +295,8 @@ def is_replaying_contract(chk):
 
 
 def run(chk):
+    from .common import per_instance_state_of_modules
+    per_instance_state_of_modules(chk, "C17.classes.state_is_per_instance", ['state', 'context'])   # no object created in a class body: instances share no mutable state through the class
     chk.assume("U: sequential program; operations inside a completed context short-circuit (C01) and are therefore not visited")
     chk.assume("B3': a non-empty NextMarker in the invocation payload means the remaining pages hold at least one more record")
     chk.trust("python semantics of the stated subset as encoded by pyvc (DESIGN 2.3)")
